@@ -36,13 +36,19 @@ TSpec == TInit /\ [][TNext]_vars
 Final == Finish(RunFrom(st, Suffix, 1, o), o)
 
 \* accepted documents also carry the navigation expectations of C11
+\* the typed entry point whose token can start with the first character of the input
+TokExp == LET inp == Prefix \o w \o Suffix
+              kind == IF inp = <<>> THEN "none" ELSE TokenKindOf(inp[1]) IN
+          IF kind = "none" THEN [kind |-> "none"]
+          ELSE [kind |-> kind, out |-> TokenOutcome(TokenRun(kind, inp, o))]
+
 Dump == DumpOn =>
   LET f == Final IN
   IF f.mode = "done"
   THEN PrintT(ToJson([k |-> "parse", w |-> Prefix \o w \o Suffix, o |-> <<o.trunc, o.inval>>,
-                      out |-> Outcome(f), nav |-> Nav(f.val)]))
+                      out |-> Outcome(f), tok |-> TokExp, nav |-> Nav(f.val)]))
   ELSE PrintT(ToJson([k |-> "parse", w |-> Prefix \o w \o Suffix, o |-> <<o.trunc, o.inval>>,
-                      out |-> Outcome(f)]))
+                      out |-> Outcome(f), tok |-> TokExp]))
 
 -----------------------------------------------------------------------------
 \* Invariants (design level)
@@ -74,4 +80,11 @@ ConservativeExtension ==
 \* grammar derives (under the same option record), and returns the value the text denotes
 AcceptIffGrammar == LET inp == Prefix \o w \o Suffix IN (Final.mode = "done") <=> GText(inp, o)
 ValueIsDenotation == LET inp == Prefix \o w \o Suffix IN Final.mode = "done" => Final.val = DText(inp, o)
+
+\* the typed entry points are prefix parsers of the same token language: whenever the whole input is one
+\* token of that kind (accepted as a document with nothing around it), the typed parser returns the same value
+TokenAgreesWithValue ==
+  LET inp == Prefix \o w \o Suffix t == TokExp IN
+  (t.kind # "none" /\ Final.mode = "done" /\ ~IsContainer(Final.val) /\ inp[Len(inp)] \notin {32, 9, 10, 13})
+     => (t.out.ok /\ t.out.v = Final.val /\ t.out.cm = CmTriples(Final.cm))
 =============================================================================
